@@ -377,7 +377,7 @@ func main() {
 	deadline := time.Now().Add(100 * time.Second)
 	if rep.Thorough() {
 		L, nFull, nRed = 5, 2, 4
-		deadline = time.Now().Add(25 * time.Minute)
+		deadline = time.Now().Add(13 * time.Minute)
 	}
 	famA(L)
 	famB(nFull, nRed, deadline)
